@@ -18,7 +18,7 @@ type DataSpec struct {
 	Lit  []byte `json:"lit,omitempty"`
 }
 
-var DataKinds = []string{"rand", "alpha", "text", "runs", "periodic", "copies", "fib", "allbytes", "zeros", "edge4k", "edge32k", "logcopies", "head_run", "geo", "mixed"}
+var DataKinds = []string{"rand", "alpha", "text", "runs", "periodic", "copies", "fib", "allbytes", "zeros", "edge4k", "edge32k", "logcopies", "head_run", "geo", "headtail", "dyadic", "heavyburst", "mixed"}
 
 var words = []string{"the ", "of ", "and ", "compress", "ion ", "window ", "deflate ", "block ", "huffman ", "a ", "to ", "in ", "stream", "\n", "0123456789", "   ", "ing ", "tion", "er ", "Intel ", "fastgo "}
 
@@ -180,6 +180,125 @@ func (d DataSpec) Bytes() []byte {
 			j := r.Intn(i + 1)
 			b[i], b[j] = b[j], b[i]
 		}
+	case "headtail": // steep head (P1 symbols, counts scale*(1,2,3,5,...) or scale*2^i) plus a flat tail of P2 symbols that
+		// occur 1..3 times: optimal depth = head depth + log2(tail), the limiter has to pull a whole subtree up
+		cnts := headTailCounts(d)
+		perm := r.Bytes(256)
+		syms := make([]byte, 256)
+		for i := range syms {
+			syms[i] = byte(i)
+		}
+		if d.Seed&8 != 0 { // shuffled symbol values (few equal neighbouring code lengths) or ascending ones
+			for i := 255; i > 0; i-- {
+				j := int(perm[i]) % (i + 1)
+				syms[i], syms[j] = syms[j], syms[i]
+			}
+		}
+		for j, c := range cnts {
+			for i := 0; i < c && len(b) < n; i++ {
+				b = append(b, syms[j%256])
+			}
+		}
+		for len(b) < n {
+			b = append(b, syms[(len(cnts)-1)%256]) // the most frequent head symbol is the last one listed
+		}
+		for i := len(b) - 1; i > 0; i-- {
+			j := r.Intn(i + 1)
+			b[i], b[j] = b[j], b[i]
+		}
+	case "dyadic": // byte counts 2^(D-l): with end-of-block (count 1) the weights sum to 2^D, so the optimal code of a
+		// Huffman-only block has exactly the code lengths l drawn here (a spine of depth D=P1 whose side branches are
+		// complete bushes of random height; P2=1: designed numbers of symbols per length; P2=2: chain shape, see dyadicLens). Controls the histogram of the code-LENGTH alphabet (7-bit limiter, HCLEN).
+		lens := dyadicLens(d, r)
+		D := 0
+		for _, l := range lens {
+			if l > D {
+				D = l
+			}
+		}
+		for k, l := range lens {
+			if l == 0 {
+				continue
+			}
+			for j := 0; j < 1<<uint(D-l) && len(b) < n; j++ {
+				b = append(b, byte(k))
+			}
+		}
+		last := byte(0)
+		if len(b) > 0 {
+			last = b[0]
+		}
+		for len(b) < n {
+			b = append(b, last)
+		}
+		if d.Seed&16 != 0 {
+			for i := len(b) - 1; i > 0; i-- {
+				j := r.Intn(i + 1)
+				b[i], b[j] = b[j], b[i]
+			}
+		}
+	case "heavyburst": // P1 fresh bytes, then rounds of (odd Seed: one round, then filler only): a burst of P2 long copies (131..257 bytes) from 4100..32700 bytes back,
+		// cheap filler (4 fresh bytes + the same 4 again) that keeps the symbols of the far copies rare (long codes), and a
+		// fresh run. Every far copy costs well over 28 bits: 16-token batches of maximal width at arbitrary phases of
+		// the encoder's output-buffer hand-over.
+		var starts []int
+		fresh := func(k int) {
+			for i := 0; i < k && len(b) < n; i++ {
+				if i%16 == 0 {
+					starts = append(starts, len(b))
+				}
+				b = append(b, byte(r.Intn(256)))
+			}
+		}
+		fresh(d.P1)
+		heavy := d.P2
+		if heavy < 1 {
+			heavy = 40
+		}
+		for len(b) < n {
+			if d.Seed&1 != 0 && len(b) > d.P1+300 {
+				// single-burst variant: only cheap filler after the one burst (its symbols stay as rare as possible)
+				for len(b) < n {
+					q := len(b)
+					fresh(4)
+					for j := 0; j < 4 && len(b) < n && q+j < len(b); j++ {
+						b = append(b, b[q+j])
+					}
+				}
+				break
+			}
+			for h := 0; h < heavy && len(b) < n; h++ {
+				cur := len(b)
+				hi := len(starts)
+				for hi > 0 && cur-starts[hi-1] < 4100 {
+					hi--
+				}
+				lo := 0
+				for lo < hi && cur-starts[lo] > 32700 {
+					lo++
+				}
+				if hi == lo {
+					break
+				}
+				src := starts[lo+r.Intn(hi-lo)]
+				l := 131 + r.Intn(127)
+				for i := 0; i < l && len(b) < n; i++ {
+					b = append(b, b[src+i])
+				}
+				starts = append(starts, cur)
+			}
+			for i, f := 0, 1500+r.Intn(1500); i < f && len(b) < n; i++ {
+				q := len(b)
+				fresh(4)
+				for j := 0; j < 4 && len(b) < n && q+j < len(b); j++ {
+					b = append(b, b[q+j])
+				}
+			}
+			fresh(200 + r.Intn(2500))
+			if len(starts) > 6000 {
+				starts = starts[len(starts)-6000:]
+			}
+		}
 	case "logcopies": // short literal runs and copies whose length and distance are log-uniform: every length/distance code and extra-bit width
 		for len(b) < n {
 			if len(b) > 4 && r.Intn(3) > 0 {
@@ -268,10 +387,37 @@ func GenData(r *kern.Rng, maxLen int) DataSpec {
 		d.P1 = r.Pick(300, 5000, 20000, 70000)
 	case "logcopies":
 		d.P1 = r.Pick(0, 1, 1)
+	case "headtail":
+		d.P1, d.P2 = r.Pick(8, 11, 13, 14, 15, 17), r.Pick(0, 3, 15, 31, 32, 63, 100, 200)
+	case "dyadic":
+		d.P1, d.P2 = r.Pick(7, 10, 13, 15, 15, 16), r.Pick(0, 1, 2, 2)
+	case "heavyburst":
+		d.P1, d.P2 = r.Range(4200, 9000), r.Pick(17, 33, 64)
 	case "geo":
 		d.P1, d.P2 = r.Pick(3, 8, 17, 20, 24, 32, 64, 256), r.Pick(11, 13, 15, 16, 20, 30)
 	}
 	d.Len = GenLen(r, maxLen)
+	if d.Kind == "headtail" && r.Pct(80) {
+		// the exact histogram (no truncation, no padding)
+		t := 0
+		for _, c := range headTailCounts(d) {
+			t += c
+		}
+		if t <= maxLen {
+			d.Len = t
+		}
+	}
+	if d.Kind == "dyadic" && r.Pct(80) {
+		if t := 1<<uint(d.P1) - 1; t <= maxLen {
+			d.Len = t
+		}
+	}
+	if d.Kind == "heavyburst" {
+		d.Len = r.Range(60000, 250000)
+		if d.Len > maxLen {
+			d.Len = maxLen
+		}
+	}
 	if d.Kind == "head_run" && r.Pct(60) {
 		// the head ends a little before a multiple of the token-block size
 		d.Len = d.P1 + r.Pick(1, 2, 3)*32767 - r.Intn(400)
@@ -307,4 +453,245 @@ func GenLen(r *kern.Rng, maxLen int) int {
 		n = r.Intn(maxLen + 1)
 	}
 	return n
+}
+
+// headTailCounts: the symbol counts of kind "headtail", rarest first.
+func headTailCounts(d DataSpec) []int {
+	h, t := d.P1, d.P2
+	if h < 2 {
+		h = 2
+	}
+	if h > 24 {
+		h = 24
+	}
+	if t < 0 {
+		t = 0
+	}
+	if t > 230 {
+		t = 230
+	}
+	scale := []int{1, 2, 8, 32, 32, 100}[d.Seed%6]
+	tc := 1 + int(d.Seed/6%3)
+	var cnts []int
+	for i := 0; i < t; i++ {
+		cnts = append(cnts, tc)
+	}
+	a, c := 1, 2
+	for i := 0; i < h; i++ {
+		v := scale * a
+		if v > 60000 {
+			v = 60000
+		}
+		cnts = append(cnts, v)
+		if d.Seed/18%2 == 0 {
+			a, c = c, a+c
+		} else {
+			a *= 2
+		}
+	}
+	return cnts
+}
+
+// dyadicLens draws 256 code lengths (0 = unused byte value) that, together
+// with one end-of-block leaf at the maximal depth, fill a binary tree exactly.
+func dyadicLens(d DataSpec, r *kern.Rng) []int {
+	D := d.P1
+	if D < 2 {
+		D = 2
+	}
+	if D > 16 {
+		D = 16
+	}
+	var ls []int
+	if d.P2 >= 1 && D >= 12 {
+		// designed variant: a few "frequent" code lengths with Fibonacci-like or geometric numbers of symbols, single
+		// symbols at most other lengths; the Kraft sum is then completed with at most one more leaf per length. The
+		// histogram of the code-length alphabet gets a steep head and a flat tail (deep code-length code, limit 7).
+		nl := make([]int, D+1)
+		units := func() int {
+			k := 0
+			for l := 1; l <= D; l++ {
+				k += nl[l] << uint(D-l)
+			}
+			return k
+		}
+		nf := 4 + r.Intn(4)
+		lv := 5 + r.Intn(3)
+		a := r.Pick(2, 3, 4, 5, 7)
+		c := a + 1 + r.Intn(a)
+		order := r.Intn(3)
+		var fl, fc []int
+		for i := 0; i < nf && lv <= D-1; i++ {
+			fl = append(fl, lv)
+			fc = append(fc, a)
+			if r.Intn(3) > 0 {
+				a, c = c, a+c
+			} else {
+				a, c = c, 2*c
+			}
+			lv++
+		}
+		if order == 1 { // largest number of symbols at the shallowest of the frequent lengths
+			for i, j := 0, len(fc)-1; i < j; i, j = i+1, j-1 {
+				fc[i], fc[j] = fc[j], fc[i]
+			}
+		} else if order == 2 {
+			for i := len(fc) - 1; i > 0; i-- {
+				j := r.Intn(i + 1)
+				fc[i], fc[j] = fc[j], fc[i]
+			}
+		}
+		if d.P2 >= 2 {
+			// chain shape: about a dozen lengths used by ONE symbol each (a flat tail of weight T in the code-length
+			// histogram) and 5-6 frequent lengths whose numbers of symbols start near T/2 and grow at least like
+			// Fibonacci numbers, so that every merge of the code-length code hangs the whole tail one level deeper
+			fl, fc = fl[:0], fc[:0]
+			x := r.Range(5, 9)
+			y := x + r.Range(3, x)
+			for sum := 0; len(fc) < 6 && sum+x <= 225; {
+				fc = append(fc, x)
+				sum += x
+				x, y = y, x+y-r.Intn(3)
+			}
+			for try := 0; try < 30; try++ {
+				for l := range nl {
+					nl[l] = 0
+				}
+				start := 5 + r.Intn(3)
+				pm := make([]int, len(fc))
+				for i := range pm {
+					pm[i] = i
+				}
+				for i := len(pm) - 1; i > 0; i-- {
+					j := r.Intn(i + 1)
+					pm[i], pm[j] = pm[j], pm[i]
+				}
+				for i, j := range pm {
+					if start+i < D {
+						nl[start+i] = fc[j]
+					}
+				}
+				for l := 2; l < D; l++ {
+					if nl[l] == 0 && r.Intn(10) > 0 {
+						nl[l] = 1
+					}
+				}
+				if units()+2 <= 1<<uint(D) {
+					break
+				}
+			}
+		} else {
+			for i, l := range fl {
+				nl[l] = fc[i]
+			}
+			for l := 2; l <= D; l++ {
+				if nl[l] == 0 && r.Intn(4) > 0 {
+					nl[l] = 1
+				}
+			}
+		}
+		nl[D] += 2 // one of them is end-of-block
+		tot := func() int {
+			t := 0
+			for _, v := range nl {
+				t += v
+			}
+			return t
+		}
+		for units() > 1<<uint(D) || tot() > 240 {
+			// too much: thin out the heaviest contribution
+			best := 1
+			for l := 1; l <= D; l++ {
+				if nl[l]<<uint(D-l) > nl[best]<<uint(D-best) {
+					best = l
+				}
+			}
+			if nl[best] <= 1 {
+				nl[best] = 0
+			} else {
+				nl[best] -= (nl[best] + 3) / 4
+			}
+		}
+		for l, rest := 1, 1<<uint(D)-units(); l <= D; l++ {
+			if rest&(1<<uint(D-l)) != 0 {
+				nl[l]++
+			}
+		}
+		nl[D]-- // end-of-block
+		// lay the lengths out so that equal ones are rarely neighbours (keeps repeat code 16 out of the header)
+		prev := -1
+		for {
+			best := -1
+			for l := 1; l <= D; l++ {
+				if nl[l] > 0 && l != prev && (best < 0 || nl[l] > nl[best]) {
+					best = l
+				}
+			}
+			if best < 0 {
+				if prev > 0 && nl[prev] > 0 {
+					best = prev
+				} else {
+					break
+				}
+			}
+			ls = append(ls, best)
+			nl[best]--
+			prev = best
+		}
+		if len(ls) > 250 {
+			ls = ls[:250]
+		}
+		out := make([]int, 0, 256)
+		for _, l := range ls {
+			if len(out)+len(ls) < 245 && r.Intn(40) == 0 {
+				for g := r.Pick(1, 1, 2, 3, 5, 11); g > 0; g-- {
+					out = append(out, 0)
+				}
+			}
+			out = append(out, l)
+		}
+		for len(out) < 256 {
+			out = append(out, 0)
+		}
+		return out[:256]
+	}
+	for depth := 1; depth <= D; depth++ {
+		// the side branch at this depth of the spine: a complete bush of height e
+		e := 0
+		if r.Intn(3) == 0 {
+			e = 1 + r.Intn(6)
+		}
+		if depth+e > D {
+			e = D - depth
+		}
+		if depth == D {
+			e = 0 // the two deepest leaves: one byte value and end-of-block
+		}
+		for len(ls)+(1<<uint(e)) > 250 && e > 0 {
+			e--
+		}
+		for i := 0; i < 1<<uint(e); i++ {
+			ls = append(ls, depth+e)
+		}
+	}
+	// spread over the byte values: either as drawn (runs of equal lengths), or shuffled, with a few gaps of unused values
+	if d.Seed&1 != 0 {
+		for i := len(ls) - 1; i > 0; i-- {
+			j := r.Intn(i + 1)
+			ls[i], ls[j] = ls[j], ls[i]
+		}
+	}
+	out := make([]int, 0, 256)
+	for _, l := range ls {
+		if len(out)+len(ls) < 250 && r.Intn(12) == 0 {
+			for g := r.Pick(1, 1, 2, 3, 5, 11); g > 0 && len(out) < 250; g-- {
+				out = append(out, 0)
+			}
+		}
+		out = append(out, l)
+	}
+	for len(out) < 256 {
+		out = append(out, 0)
+	}
+	return out[:256]
 }
